@@ -1689,6 +1689,20 @@ func parseFieldStrValue(s string) (string, error) {
 			return "", fmt.Errorf("missing closing quote for quoted field value %s", s)
 		}
 		s = s[1 : len(s)-1]
+		// the closing quote must not be escaped and no unescaped quote may occur inside
+		esc := false
+		for i := 0; i < len(s); i++ {
+			if esc {
+				esc = false
+			} else if s[i] == '\\' {
+				esc = true
+			} else if s[i] == '"' {
+				return "", fmt.Errorf("unescaped quote inside quoted field value %s", s)
+			}
+		}
+		if esc {
+			return "", fmt.Errorf("missing closing quote for quoted field value %s", s)
+		}
 		n := strings.IndexByte(s, '\\')
 		if n < 0 {
 			// no '\' escape chars
@@ -1727,7 +1741,7 @@ func parseFieldStrValue(s string) (string, error) {
 		ret.WriteString(s)
 		return ret.String(), nil
 	}
-	return "", nil
+	return "", fmt.Errorf("field value %s contains a quote but is not a quoted string", s)
 }
 
 func nextUnescapedChar(s string, ch byte, noEscapeChars, enableTagArray, tagParse bool) int {
